@@ -264,8 +264,9 @@ Arguments live_in : simpl never.
 Arguments wk_tokw _ !w /.
 Arguments live_optw _ !o /.
 
-(* mandatory actors: everything except the consumer's free choices (drop, set depth) *)
-Definition optional (a : actor) : bool := match a with ACDrop | ACSetDepth _ => true | _ => false end.
+(* mandatory actors: everything except the consumer's free choices (drop, set depth) and the external owner's choice
+   to give up its reference to the Desync *)
+Definition optional (a : actor) : bool := match a with ACDrop | ACSetDepth _ | AExtDrop => true | _ => false end.
 Definition env_event (a : actor) : bool := match a with AItem | AEnd => true | _ => false end.
 (* terminal: no mandatory actor can move *)
 Definition terminal (F : pfacts) (f : nat -> nat) (s : state) : Prop :=
